@@ -108,6 +108,16 @@ func applyDelta(s *clx.Stores, w int) {
 	s.Ledger.SetBalance(a, big.NewInt(int64(1000+w)))
 	s.Ledger.SetState(a, []byte(fmt.Sprintf("k%d", w%2)), []byte(fmt.Sprintf("v%d", w)), nil)
 	s.Ledger.SetState(accts[3], []byte("h"), []byte(fmt.Sprintf("%d", w)), nil)
+	// a key that alternates between the EMPTY value (present-and-empty, as the executor leaves an
+	// emptied list) and a non-empty one: every odd block from 3 on overwrites a non-empty value with
+	// the empty one, every even block from 4 on overwrites an existing empty value (journal prev = "").
+	// (Block 1 writes a non-empty value: CREATING a key with the empty value is not written to disk by
+	// Commit -- bytes.Equal(nil, []byte{}) -- while the account cache says it exists; that belongs to C13.)
+	if w%2 == 1 && w >= 3 {
+		s.Ledger.SetState(accts[3], []byte("e"), []byte{}, nil)
+	} else {
+		s.Ledger.SetState(accts[3], []byte("e"), []byte(fmt.Sprintf("e%d", w)), nil)
+	}
 }
 
 // dump of everything any delta can touch
@@ -115,9 +125,10 @@ func dump(s *clx.Stores) string {
 	var sb strings.Builder
 	for _, a := range accts {
 		sb.WriteString(s.Ledger.GetBalance(a).String())
-		for _, k := range []string{"k0", "k1", "h"} {
+		for _, k := range []string{"k0", "k1", "h", "e"} {
+			// existence flag and value: present-and-empty differs from absent
 			ok, v := s.Ledger.GetState(a, []byte(k))
-			sb.WriteString(fmt.Sprintf("|%v:%s", ok, v))
+			sb.WriteString(fmt.Sprintf("|%v:%q", ok, v))
 		}
 		sb.WriteString(";")
 	}
